@@ -300,4 +300,86 @@ class FromFiles(object):
         sig = 'C15|%s|%s|%s|read-from-%s' % (slot[0], tname, 'identity' if case['id'] else 'default', case['source'])
         return run_slot(slot, text, True, bool(case['id']), sig, source=case['source'])
 
-FAMILIES = [Slots(), Pairs(), SwitchHistories(), FromFiles()]
+
+def _option_histories():
+    from mc.checks import C12
+
+    class OptionHistories(C12.OptionHistories):
+        prefix = 'C15'
+    return OptionHistories()
+
+
+class ThroughTheWriters(object):
+    name = 'through-the-file-writers'
+    describe = ('a module whose first description holds non-ASCII characters (none / 2-octet / 3-octet / 4-octet) followed by 100 / 9000 / '
+                '20000 further characters of text, stored by the REAL PyFileWriter / FileWriter into a scratch directory: the file on '
+                'disk decodes to exactly the text the code generator handed over')
+
+    def blocks(self, tier):
+        return [{'w': w} for w in ('py', 'json')]
+
+    def cases(self, block, tier):
+        for ch in ('', '\u00e9', '\u4e2d', '\U0001f600'):
+            for n in (100, 9000, 20000):
+                for count in (1, 40):
+                    if ch or count == 1:
+                        yield {'w': block['w'], 'ch': ch, 'n': n, 'count': count}
+
+    def run_case(self, case):
+        import os
+        import shutil
+        import tempfile
+        from pysmi.writer.localfile import FileWriter
+        from pysmi.writer.pyfile import PyFileWriter
+        first = 'start ' + case['ch'] * case['count'] + ' end'
+        words = ' '.join('w%05d' % i for i in range(case['n'] // 7 + 1))
+        decls = build('ot', 'descr', first)
+        decls.append({'k': 'ot', 'name': 'follower', 'syntax': ('simple', 'Integer32'), 'access': ('MAX-ACCESS', 'read-only'),
+                      'status': 'current', 'descr': words, 'oid': ['ctxRoot', 10]})
+        mod = refir.finish_module({'name': 'TEST-MIB', 'decls': decls})
+        src = mibspec.pretty([mod])
+        backend = 'pysnmp' if case['w'] == 'py' else 'json'
+        captured = []
+
+        base = os.environ.get('VERIF_TMP') or ('/dev/shm' if os.path.isdir('/dev/shm') else None)
+        d = tempfile.mkdtemp(prefix='mcC15', dir=base)
+        try:
+            real = PyFileWriter(d).setOptions(pyCompile=False) if case['w'] == 'py' else FileWriter(d).setOptions(suffix='.json')
+
+            class Tee(object):
+                def setOptions(self, **kw):
+                    return self
+
+                def getData(self, name):
+                    return ''
+
+                def putData(self, name, data, comments=(), dryRun=False):
+                    captured.append((name, data))
+                    return real.putData(name, data, comments=(), dryRun=dryRun)
+            comp = env.MibCompiler(env.fresh_parser('smiV2'), env.make_codegen(backend), Tee())
+            texts = env.base_texts()
+            texts['TEST-MIB'] = src
+            comp.addSources(env.DictReader(texts))
+            comp.addSearchers(env.StubSearcher(*env.BASE_NAMES))
+            res = comp.compile('TEST-MIB', genTexts=True, textFilter=lambda symbol, t: t)
+            sig = 'C15|writers|%s|%s|following=%d' % (case['w'], 'ascii' if not case['ch'] else '%d-octet-char' % len(case['ch'].encode('utf-8')),
+                                                      case['n'])
+            if res.get('TEST-MIB') != 'compiled' or not captured:
+                return 'notcompiled', [('%s|not-compiled' % sig, '%r %r' % (res.get('TEST-MIB'), getattr(res.get('TEST-MIB'), 'error', None)))], 1
+            path = os.path.join(d, 'TEST-MIB' + ('.py' if case['w'] == 'py' else '.json'))
+            with open(path, 'rb') as f:
+                on_disk = f.read().decode('utf-8', 'replace')
+            handed = captured[-1][1]
+            vs = []
+            if on_disk != handed:
+                at = next((i for i, (a, b) in enumerate(zip(on_disk, handed)) if a != b), min(len(on_disk), len(handed)))
+                vs.append(('%s|file-differs-from-generated-text' % sig,
+                           'file has %d characters, generated text %d; first difference at %d: file %r, text %r' % (
+                               len(on_disk), len(handed), at, on_disk[at:at + 30], handed[at:at + 30])))
+            if first not in on_disk and backend == 'pysnmp':
+                vs.append(('%s|first-description-not-in-file' % sig, repr(first[:40])))
+            return 'ok', vs, 1
+        finally:
+            shutil.rmtree(d, ignore_errors=True)
+
+FAMILIES = [Slots(), Pairs(), SwitchHistories(), FromFiles(), _option_histories(), ThroughTheWriters()]
